@@ -194,6 +194,14 @@ theorem impl_eq_spec_WalletV5R1Body : implementsSpec env desc_wallet_MessageV5 S
   decide +kernel
 
 
+/-! a `maybe` pointer field whose element is written by reflection (config parameter 5), and MsgMetadata -/
+open TongoGen.TlbTypes in
+theorem impl_eq_spec_BurningConfig : implementsSpec env desc_tlb_BurningConfig Spec.BurningConfig = true := by
+  decide +kernel
+open TongoGen.TlbTypes in
+theorem impl_eq_spec_MsgMetadata : implementsSpec env desc_tlb_MsgMetadata Spec.MsgMetadata = true := by
+  decide +kernel
+
 /-! highload wallet v2: the body after the signature -/
 open TongoGen.TlbTypes in
 theorem impl_eq_spec_HighloadV2Body :
